@@ -644,7 +644,19 @@ impl<'a, BF: PrimeField64, EF: ExtensionField<BF>> Gen<'a, BF, EF> {
                 }
             }
             42..=47 => {
-                let (a, b, c) = (self.any(), self.any(), self.any());
+                let (mut a, mut b, mut c) = (self.any(), self.any(), self.any());
+                if self.rng.chance(1, 4) {
+                    // the addend is also a factor, and (half of the time) a private input seen here
+                    // for the first time: one witness in a creating position and in `c` of one row
+                    let p = if self.rng.chance(1, 2) {
+                        let v = self.rand_val();
+                        self.emit_input(v, false)
+                    } else {
+                        self.any()
+                    };
+                    c = p;
+                    if self.rng.chance(1, 2) { a = p } else { b = p }
+                }
                 let v = self.v(a) * self.v(b) + self.v(c);
                 self.calls.push(Call::MulAdd(a, b, c));
                 self.push_val(v, 3);
